@@ -31,6 +31,9 @@ impl CheckpointStorage {
             .with_meta("checkpoint_id", &state.id)
             .with_meta("checkpoint_name", &state.name)
             .with_meta("created_at", state.created_at.to_string())
+            // `created_at` has one-second granularity; this orders checkpoints taken within
+            // the same second (listing and retention both rely on newest-first order).
+            .with_meta("created_at_nanos", Self::now_nanos().to_string())
             .with_created_by("system:checkpoint");
 
         if let Some(trigger) = &trigger_desc {
@@ -43,6 +46,13 @@ impl CheckpointStorage {
             .map_err(CheckpointError::Blob)?;
 
         Ok(artifact_id)
+    }
+
+    fn now_nanos() -> u128 {
+        std::time::SystemTime::now()
+            .duration_since(std::time::UNIX_EPOCH)
+            .map(|d| d.as_nanos())
+            .unwrap_or(0)
     }
 
     /// Load a checkpoint by ID or name, deserializing the full state.
@@ -70,6 +80,11 @@ impl CheckpointStorage {
         let mut checkpoints = Vec::new();
         for artifact_id in artifact_ids {
             if let Ok(meta) = blob.metadata(&artifact_id).await {
+                let nanos: u128 = meta
+                    .custom
+                    .get("created_at_nanos")
+                    .and_then(|s| s.parse().ok())
+                    .unwrap_or(0);
                 let info = CheckpointInfo {
                     id: meta
                         .custom
@@ -90,13 +105,13 @@ impl CheckpointStorage {
                     size: meta.size,
                     trigger: meta.custom.get("trigger").cloned(),
                 };
-                checkpoints.push(info);
+                checkpoints.push((info, nanos));
             }
         }
 
-        checkpoints.sort_by(|a, b| b.created_at.cmp(&a.created_at));
+        checkpoints.sort_by(|a, b| (b.0.created_at, b.1).cmp(&(a.0.created_at, a.1)));
 
-        Ok(checkpoints)
+        Ok(checkpoints.into_iter().map(|(info, _)| info).collect())
     }
 
     /// Delete a checkpoint by its blob artifact ID.
